@@ -37,6 +37,12 @@ type Case struct {
 	Ops     []Op   `json:"ops,omitempty"`
 	Threads [][]Op `json:"threads,omitempty"`
 	Procs   int    `json:"procs,omitempty"`
+	// herd: after Ops (sequential prefix) every goroutine of Herd issues its one
+	// write at the same moment; the writes commute and are idempotent (adds and
+	// removes, no (topic,value) both added and removed), so the final contents
+	// are the same for every interleaving. Repeated Rounds times on fresh trees.
+	Herd   []Op `json:"herd,omitempty"`
+	Rounds int  `json:"rounds,omitempty"`
 }
 
 type verdict struct{ sig, msg string }
@@ -402,7 +408,86 @@ func runConcurrent(c *Case) (v *verdict, inconclusive bool) {
 	return &verdict{"concurrent/not-linearizable", "recorded history has no linearization against the map model:\n" + sb.String()}, false
 }
 
+// runHerd: confluent concurrent writes, audited at quiescence against the model.
+func runHerd(c *Case) *verdict {
+	if c.Procs > 0 {
+		defer runtime.GOMAXPROCS(runtime.GOMAXPROCS(c.Procs))
+	}
+	rounds := c.Rounds
+	if rounds < 1 {
+		rounds = 1
+	}
+	for r := 0; r < rounds; r++ {
+		tr := topic.NewStandardTree()
+		m := reftopic.Model{}
+		for _, o := range c.Ops {
+			apply(tr, m, o)
+		}
+		var wg sync.WaitGroup
+		start := make(chan struct{})
+		for _, o := range c.Herd {
+			wg.Add(1)
+			go func(o Op) {
+				defer wg.Done()
+				<-start
+				switch o.Kind {
+				case "add":
+					tr.Add(o.Topic, o.Value)
+				case "remove":
+					tr.Remove(o.Topic, o.Value)
+				}
+			}(o)
+		}
+		close(start)
+		wg.Wait()
+		for _, o := range c.Herd {
+			apply(topic.NewStandardTree(), m, o)
+		}
+		if v := compare(tr, m, c.Mode, len(c.Ops), nil); v != nil {
+			return &verdict{"herd/" + v.sig, fmt.Sprintf("round %d: after %d goroutines issued their (commuting, idempotent) writes at once: %s", r, len(c.Herd), v.msg)}
+		}
+		if v := noTrace(tr, m, len(c.Ops)); v != nil {
+			return &verdict{"herd/" + v.sig, fmt.Sprintf("round %d: %s", r, v.msg)}
+		}
+	}
+	return nil
+}
+
+func genHerd(rt *rapid.T) *Case {
+	c := &Case{Mode: rapid.SampledFrom([]string{"filters", "names"}).Draw(rt, "mode")}
+	u := universe(c.Mode)
+	for n := rapid.IntRange(0, 4).Draw(rt, "prefix"); n > 0; n-- {
+		c.Ops = append(c.Ops, genWrite(rt, c.Mode, 3))
+	}
+	type pair struct {
+		t string
+		v int
+	}
+	kindOf := map[pair]string{}
+	distinct := rapid.IntRange(1, 4).Draw(rt, "distinct")
+	for i := 0; i < distinct; i++ {
+		pr := pair{rapid.SampledFrom(u).Draw(rt, "ht"), rapid.IntRange(1, 3).Draw(rt, "hv")}
+		k, seen := kindOf[pr]
+		if !seen {
+			k = rapid.SampledFrom([]string{"add", "add", "remove"}).Draw(rt, "hk")
+			kindOf[pr] = k
+		}
+		for copies := rapid.SampledFrom([]int{1, 2, 2, 3, 4, 8}).Draw(rt, "copies"); copies > 0 && len(c.Herd) < 16; copies-- {
+			c.Herd = append(c.Herd, Op{Kind: k, Topic: pr.t, Value: pr.v})
+		}
+	}
+	c.Procs = rapid.SampledFrom([]int{0, 0, 2, 4}).Draw(rt, "procs")
+	c.Rounds = 30
+	if ev.Thorough() {
+		c.Rounds = 200
+	}
+	return c
+}
+
 func runCase(c *Case) (*verdict, bool) {
+	if len(c.Herd) > 0 {
+		return runHerd(c), false
+	}
 	if len(c.Threads) > 0 {
 		return runConcurrent(c)
 	}
@@ -474,7 +559,7 @@ func nontrivialSeq(c *Case) bool {
 
 func TestC05(t *testing.T) {
 	run := ev.Start("C05", "exploration")
-	run.Rule("sequential: bounded-exhaustive op sequences over {Add,Set,Remove,Empty,Clear,Reset} x 4 topics x 2 values (length <= 3 quick, <= 5 thorough) and rapid op lists over 9-11 topics x 4 values with all queries, String() and all earlier returned slices re-checked after every step; concurrent: 2-16 goroutines running generated op lists on one tree under -race, history checked for linearizability against the map model (porcupine). non-trivial = a removal empties a node under/above a still populated one, or (concurrent) >= 2 goroutines with both writes and queries; distinct by case JSON")
+	run.Rule("sequential: bounded-exhaustive op sequences over {Add,Set,Remove,Empty,Clear,Reset} x 4 topics x 2 values (length <= 3 quick, <= 5 thorough) and rapid op lists over 9-11 topics x 4 values with all queries, String() and all earlier returned slices re-checked after every step; concurrent: 2-16 goroutines running generated op lists on one tree under -race, history checked for linearizability against the map model (porcupine); herd: after a sequential prefix up to 16 goroutines issue commuting, idempotent writes (Add/Remove, the same write by 1-8 goroutines, no pair both added and removed) at the same moment, 30 (quick) / 200 rounds per case on fresh trees, then every query, Count and the printed structure are compared with the model (the result is the same for every interleaving). non-trivial = a removal empties a node under/above a still populated one, or (concurrent) >= 2 goroutines with both writes and queries, or (herd) one write issued by >= 2 goroutines at once; distinct by case JSON")
 	run.Assume("values are comparable and non-nil; Remove(t, nil) (alias of Empty) is not generated; Go scheduler interleavings are sampled")
 	defer run.Finish(t)
 	shard, shards := ev.Shard()
@@ -586,6 +671,31 @@ func TestC05(t *testing.T) {
 			rt.Fatalf("%s: %s", v.sig, v.msg)
 		}
 	})
+
+	// --- herd: identical / commuting writes issued at the same moment
+	run.Rapid(t, "herd", ev.Pick(400, 8000), func(rt *rapid.T) {
+		c := genHerd(rt)
+		run.Eval(1)
+		run.Class(fmt.Sprintf("herd:goroutines=%d", len(c.Herd)))
+		if herdNonTrivial(c) {
+			run.NonTrivialJSON(c)
+		}
+		if v := runHerd(c); v != nil {
+			run.Candidate(v.sig, v.msg, c)
+			rt.Fatalf("%s: %s", v.sig, v.msg)
+		}
+	})
+}
+
+func herdNonTrivial(c *Case) bool {
+	seen := map[Op]bool{}
+	for _, o := range c.Herd {
+		if seen[o] {
+			return true // the same write issued by two goroutines at once
+		}
+		seen[o] = true
+	}
+	return false
 }
 
 func TestReplay(t *testing.T) {
